@@ -139,7 +139,11 @@ class MultiFilter(Filter):
 
     def __call__(self, tokens):
         # Only selects on the first token
-        t = next(tokens)
+        tokens = iter(tokens)
+        t = next(tokens, None)
+        if t is None:
+            # No tokens: nothing to filter
+            return iter(())
         filter = self.filters.get(t.mode, self.default_filter)
         return filter(chain([t], tokens))
 
